@@ -297,7 +297,7 @@ var opsByMode = map[string][]string{
 	"C06": {"ReverseComplement", "ReverseComplement", "ReverseComplementSequences", "ReverseComplementSequences", "ToUpper", "ToLower", "Unalign", "Clone"},
 	"C12": {"RemoveGapSites", "RemoveCharacterSites", "RemoveCharacterSites", "RemoveMajorityCharacterSites", "RemoveGapSeqs", "RemoveCharacterSeqs", "Clone"},
 	"C13": {"Deduplicate", "Deduplicate", "Compress", "Compress", "Clone", "Add", "CloneSeqBag"},
-	"C15": {"Mask", "Mask", "Mask", "MaskOccurences", "MaskOccurences", "MaskUnique", "Clone"},
+	"C15": {"Mask", "Mask", "Mask", "MaskPositions", "MaskPositions", "MaskOccurences", "MaskOccurences", "MaskUnique", "Clone"},
 	"C14": {"MaxCharStats", "MaxCharStats", "Consensus", "Consensus", "CharStats", "CharStatsSite", "CharStatsSeq", "UniqueCharacters", "Entropy", "Entropy",
 		"NbVariableSites", "InformativeSites", "AvgAllelesPerSite", "Pssm", "CountDifferences", "NumGapsUnique", "NumMutationsUnique",
 		"NumMutRef", "ListMutRef", "CountProfile", "ProfileOnly", "ProfileOnly", "SetSequenceChar", "SiteConservation", "SiteConservation", "AlphabetInfo"},
@@ -701,6 +701,25 @@ func (g *heapGen) args(h *heapRun, op string, recv int, o *obj) *Step {
 		if len(ref) == 0 && g.rng.Intn(4) != 0 {
 			a["noref"] = false
 		}
+	case "MaskPositions":
+		if !needAl() || L < 1 {
+			return nil
+		}
+		ref := []int{}
+		if g.rng.Intn(2) == 0 {
+			ref = g.existingName(o)
+		}
+		a["ref"] = toIface(ref)
+		ps := []interface{}{}
+		for k := 0; k < 1+g.rng.Intn(3); k++ {
+			ps = append(ps, f64(g.rng.Intn(L)))
+		}
+		if g.rng.Intn(8) == 0 {
+			ps = append(ps, f64(g.boundary(L)))
+		}
+		a["pos"] = ps
+		a["repl"] = toIface(s2i([]string{"", "AMBIG", "GAP", "GAP", "MAJ", "Z"}[g.rng.Intn(6)]))
+		a["nogap"], a["noref"] = g.rng.Intn(2) == 0, len(ref) > 0 && g.rng.Intn(3) == 0
 	case "MaskOccurences", "MaskUnique":
 		if !needAl() {
 			return nil
